@@ -229,7 +229,7 @@ func legC20Closed(c *Ctx) {
 	for _, t := range c20Titlecase {
 		pats = append(pats, c20Pat{t, Opts{I: true}, "titlecase"}, c20Pat{t, Opts{I: true, RTL: true}, "titlecase"})
 	}
-	n := c.N(1500, 30000)
+	n := c.N(4000, 60000)
 	for i := 0; i < n; i++ {
 		o := Opts{I: true, RTL: c.Rng.Chance(20), S: c.Rng.Chance(20), M: c.Rng.Chance(20)}
 		lits := []rune{Pick(c.Rng, ciLetters), Pick(c.Rng, ciLetters), swapCase(Pick(c.Rng, ciLetters))}
